@@ -1,5 +1,6 @@
 """C02 - every plan segments the record safely and completely."""
 import numpy as np
+from hypothesis import strategies as st
 
 from .. import sched
 from ..api import FuzzPart, GridPart, Part, Res
@@ -79,8 +80,58 @@ def oracle(cfg):
     return Res(viol, nontrivial, labels)
 
 
+@st.composite
+def analyzer_case(draw, tier):
+    """The analyzer's own defaults: overlap chosen from the window ('default'), every window spelling, psll, and the
+    default scheduler/bmin/Lmin/Jdes/Kdes when not drawn."""
+    from .. import gens
+    N = draw(st.one_of(st.integers(8, 64), gens.loguniform_int(8, 5000)))
+    c = {"N": N, "fs": draw(st.sampled_from([1.0, 2.0, 1000.0, 0.01])), "win": draw(st.sampled_from(gens.WIN_NAMES)),
+         "psll": draw(st.one_of(st.sampled_from([200, 100, 60, 30]), st.floats(30, 250))),
+         "sched": draw(st.sampled_from(sched.NAMES + ["<default>"])), "defaults": draw(st.booleans())}
+    if not c["defaults"]:
+        c.update(bmin=draw(st.sampled_from([1.0, 1.5, 2.0])), Lmin=draw(st.sampled_from([1, 2, max(1, N // 3)])),
+                 Jdes=draw(st.integers(1, 300)), Kdes=draw(st.integers(1, 200)))
+        if not c["bmin"] < N / 2.0:
+            c["bmin"] = 1.0
+    return c
+
+
+def oracle_analyzer(c):
+    from speckit import SpectrumAnalyzer
+    from .. import gens
+    N = int(c["N"])
+    kw = dict(win=gens.resolve_window(c["win"])[0], psll=c["psll"])
+    if c["sched"] != "<default>":
+        kw["scheduler"] = c["sched"]
+    if not c["defaults"]:
+        kw.update(bmin=c["bmin"], Lmin=c["Lmin"], Jdes=c["Jdes"], Kdes=c["Kdes"])
+    an = SpectrumAnalyzer(np.zeros(N), c["fs"], **kw)
+    olap = float(an.config["final_olap"])
+    viol = []
+    name = c["sched"] if c["sched"] != "<default>" else "vectorized_ltf"
+    cfg = {"N": N, "fs": c["fs"], "olap": olap, "bmin": float(an.config["bmin"]), "Lmin": int(an.config["Lmin"]),
+           "Jdes": int(an.config["Jdes"]), "Kdes": int(an.config["Kdes"]), "sched": name}
+    if not (0.0 <= olap < 1.0):
+        viol.append(sched.vio("default_overlap_out_of_range", name, cfg, win=c["win"], psll=c["psll"]))
+        return Res(viol, False, [])
+    plan = an.plan()            # must not raise for an admissible configuration
+    Lmin_eff = 1 if name == "lpsd" else cfg["Lmin"]
+    for j in range(len(plan["f"])):
+        d = np.asarray(plan["D"][j])
+        Lj = int(plan["L"][j])
+        ok = (d.size >= 1 and int(plan["navg"][j]) == d.size == int(plan["K"][j]) and max(1, Lmin_eff) <= Lj <= N and d[0] == 0
+              and d.min() >= 0 and d.max() + Lj <= N and (d.size == 1 or (np.all(np.diff(d) > 0) and d[-1] + Lj == N))
+              and (d.size > 1 or Lj == N))
+        if not ok:
+            viol.append(sched.vio("analyzer_default_plan_invalid", name, cfg, j, L=Lj, K=int(d.size), win=c["win"], psll=c["psll"]))
+            break
+    return Res(viol, len(plan["f"]) >= 3, ["analyzer:win=" + c["win"], "analyzer:" + ("defaults" if c["defaults"] else "drawn")])
+
+
 PARTS = [
     Part("configs", sched.config, oracle, n_quick=500, n_thorough=6000),
+    Part("analyzer_defaults", analyzer_case, oracle_analyzer, n_quick=80, n_thorough=800),
     GridPart("small_grid", sched.grid_configs, oracle),
     # thorough tier only: coverage-guided campaign on the pure-Python schedulers (same oracle inside the target)
     FuzzPart("atheris", "harness.fuzz_sched", runs_quick=2000, runs_thorough=25000, oracle=oracle),
